@@ -1130,6 +1130,37 @@ def check_parsed(part, raw, t, what):
     return None
 
 
+def check_block(tk, out, with_target=True):
+    raw = unhx(tk[1])
+    f = o_parse_block(raw)
+    if f is None:
+        return None
+    first, second = out.split(' D:', 1)
+    if first == 'ERR':
+        return 'Block.parse_bytes(parse_transactions=True) rejects a well-formed block'
+    p = first.split(' ')
+    if p[0] != hx(raw):
+        return 'Block.serialize() differs from the parsed bytes'
+    want = [f['hash'], str(f['version']), f['prev'], f['merkle'], str(f['time']), str(f['bits']), str(f['nonce'])]
+    if p[1:8] != want:
+        return 'block header fields / hash not recovered exactly'
+    if with_target and p[8] != str(o_target_signed(f['bits'])):
+        return 'block target %s, SetCompact gives %d' % (p[8][:70], o_target_signed(f['bits']))
+    if p[9] != str(f['count']):
+        return 'tx_count %s, expected %d' % (p[9], f['count'])
+    ids = ','.join(o_txid(t) for t in f['txs'])
+    if p[10] != ids:
+        return 'transaction ids of the parsed block differ'
+    if second == 'ERR':
+        return 'parse_transactions_dict fails on a well-formed block'
+    d = second.split(' ')
+    if d[0] != ids:
+        return 'parse_transactions_dict: transaction ids differ'
+    if d[1] != hx(b''.join(f['spans'])):
+        return 'parse_transactions_dict: rawtx bytes differ'
+    return None
+
+
 def prop_check(c, out):
     if out.startswith('CRASH') or out == 'BADREQ':
         return 'unexpected answer %r' % out[:100]
@@ -1180,34 +1211,7 @@ def prop_check(c, out):
         want = o_target_signed(bits)
         return None if out == str(want) else 'target of bits %#x is %s, SetCompact gives %d' % (bits, out[:70], want)
     if tk[0] == 'block':
-        raw = unhx(tk[1])
-        f = o_parse_block(raw)
-        if f is None:
-            return None
-        first, second = out.split(' D:', 1)
-        if first == 'ERR':
-            return 'Block.parse_bytes(parse_transactions=True) rejects a well-formed block'
-        p = first.split(' ')
-        if p[0] != hx(raw):
-            return 'Block.serialize() differs from the parsed bytes'
-        want = [f['hash'], str(f['version']), f['prev'], f['merkle'], str(f['time']), str(f['bits']), str(f['nonce'])]
-        if p[1:8] != want:
-            return 'block header fields / hash not recovered exactly'
-        if p[8] != str(o_target_signed(f['bits'])):
-            return 'block target %s, SetCompact gives %d' % (p[8][:70], o_target_signed(f['bits']))
-        if p[9] != str(f['count']):
-            return 'tx_count %s, expected %d' % (p[9], f['count'])
-        ids = ','.join(o_txid(t) for t in f['txs'])
-        if p[10] != ids:
-            return 'transaction ids of the parsed block differ'
-        if second == 'ERR':
-            return 'parse_transactions_dict fails on a well-formed block'
-        d = second.split(' ')
-        if d[0] != ids:
-            return 'parse_transactions_dict: transaction ids differ'
-        if d[1] != hx(b''.join(f['spans'])):
-            return 'parse_transactions_dict: rawtx bytes differ'
-        return None
+        return check_block(tk, out)
     return None
 
 
@@ -1358,7 +1362,9 @@ def _target_class(c, io, mo):
     if c.req.startswith('block '):
         f = o_parse_block(unhx(c.req.split(' ')[1]))
         p = io.split(' D:')[0].split(' ')
-        return f is not None and len(p) > 8 and p[8] == lib_target_documented(f['bits'], True)
+        # only the target may be what fails
+        return f is not None and len(p) > 8 and p[8] == lib_target_documented(f['bits'], True) and \
+            check_block(c.req.split(' '), io, with_target=False) is None
     return True
 
 
